@@ -337,7 +337,8 @@ def confirm_replay(ctx, kind, cands):
 # are never verdicts; when other candidates of the run are confirmed those are reported and these are counted in the
 # evidence; when NOTHING reproduces the check is flaky and says so (exit 2).
 UNREPRODUCED = []
-MAX_CONFIRM = 60      # candidates confirmed per kind; the rest are counted, not re-executed
+MAX_CONFIRM = 60
+HARD_CAP = 900      # candidates confirmed per kind; the rest are counted, not re-executed
 
 
 def confirm_all(ctx, cands):
@@ -348,16 +349,24 @@ def confirm_all(ctx, cands):
             kinds.append(c["kind"])
     for k in kinds:
         sub = [c for c in cands if c["kind"] == k]
-        if len(sub) > MAX_CONFIRM and k != "eval":
-            log("%d candidates of kind %s: confirming the first %d" % (len(sub), k, MAX_CONFIRM))
-            ctx.extra["unconfirmed_candidates_" + k] = len(sub) - MAX_CONFIRM
-            sub = sub[:MAX_CONFIRM]
         if k == "eval":
             out += confirm_eval(ctx, sub)
-        elif KINDS[k].get("module"):
-            out += confirm_events(ctx, k, sub)
-        else:
-            out += confirm_replay(ctx, k, sub)
+            continue
+        # candidates are confirmed in batches of MAX_CONFIRM.  As long as every confirmed one is a recorded known
+        # finding the next batch is taken too (up to HARD_CAP): known findings must not use up the budget and hide a
+        # violation that stands behind them in the list.
+        known = vlib.load_known()
+        done = 0
+        while done < len(sub) and done < HARD_CAP:
+            batch = sub[done:done + MAX_CONFIRM]
+            done += len(batch)
+            res = confirm_events(ctx, k, batch) if KINDS[k].get("module") else confirm_replay(ctx, k, batch)
+            out += res
+            if any(vlib.match_known(ctx.pid, c["descr"], known) is None for c in res):
+                break
+        if done < len(sub):
+            log("%d candidates of kind %s: %d confirmed" % (len(sub), k, done))
+            ctx.extra["unconfirmed_candidates_" + k] = len(sub) - done
     if UNREPRODUCED:
         ctx.extra["unreproduced_candidates"] = len(UNREPRODUCED)
         log("%d candidate(s) did not reproduce in the re-executions, e.g. %s" % (len(UNREPRODUCED), UNREPRODUCED[0][:200]))
